@@ -522,7 +522,7 @@ def install_add_association(reg: Registry):
                      requires=requires, ensures=ensures,
                      raises={'ModelException': (lambda c: z3.Not(reg.assoc_valid(c.old, c.self, c.association)), lambda c: region_unchanged(c.old, c.h))},
                      modifies=LIST_ARRAYS + DICT_ARRAYS + ('cls', 'own_obj', 'own_fld', 'f_associations', 'f_extras'), allocates=True,
-                     loops={1: LoopSpec(inv, iter_src='getattr(association, field_name)')}, props=('C05', 'C06')))
+                     loops={1: LoopSpec(inv, iter_src='getattr(association, field_name)')}, props=('C05', 'C06', 'C07')))  # C07: _from_dict (assumed) rebuilds every link through add_association
 
 
 def install_remove_asset_from_association(reg: Registry):
